@@ -477,7 +477,7 @@ def wide_library(rows=None, class_=True, defaults=False, **opts):
 STR_ROWS = {"cstr_in", "str_cref", "str_ref_inout", "str_ref_out"}
 STR_RESULTS = {"cstr", "str_cref"}
 VEC_BUF_ROWS = {"vec_in", "vec_inout", "vec_out_alloc", "vec_inout_alloc"}
-CDESC_RESULTS = {"iptr3"}
+CDESC_RESULTS = {"iptr3", "iptr23"}
 
 
 def cfi_conflict(f):
